@@ -3,7 +3,8 @@
     [assert_android_rp_id], [decode_host], [is_suffix_at_label_boundary].  Definitions only.
 
     Third-party code is not modelled but taken as input: [Url::scheme()] / [Url::domain()] of the parsed
-    origin are the fields of [Web]; the verdict of [idna::domain_to_unicode] is the oracle [puny_ok];
+    origin are the fields of [Web]; the verdict of [idna::domain_to_unicode] is the oracle [puny_ok] and
+    the result of [idna::domain_to_ascii] the oracle [to_ascii];
     the public-suffix provider is a parameter ([.ok()] of its answer), instantiated in RpIdFacts with the
     C10 model of the shipped list. *)
 From PK Require Import Lib.Bytes Psl.PslSpec Psl.PslModel.
@@ -46,6 +47,8 @@ Section Verifier.
   Variable provider : bytes -> option bytes.
   (** [idna::domain_to_unicode(x).1.is_ok()] *)
   Variable puny_ok : bytes -> bool.
+  (** [idna::domain_to_ascii(x).ok()]: the canonical ASCII (lower-case, punycode) form *)
+  Variable to_ascii : bytes -> option bytes.
 
   (** [fn decode_host(host: &str) -> Option<Cow<str>>]; only [is_some] of the result is ever used *)
   Definition decode_host (host : bytes) : bool :=
@@ -61,9 +64,15 @@ Section Verifier.
        | None => false
        end.
 
-  (** [decode_host(x).and_then(|_| self.tld_provider.effective_tld_plus_one(x).ok()).is_none()] *)
-  Definition not_registrable (x : bytes) : bool :=
-    negb (decode_host x && match provider x with Some _ => true | None => false end).
+  (** [fn is_registrable(&self, rp_id: &str) -> bool]: the provider is consulted with the ASCII form *)
+  Definition is_registrable (x : bytes) : bool :=
+    decode_host x                                                (* decode_host(rp_id) *)
+    && match to_ascii x with                                     (*   .and_then(|_| idna::domain_to_ascii(rp_id).ok()) *)
+       | Some ascii =>                                           (*   .is_some_and(|ascii| *)
+           match provider ascii with Some _ => true | None => false end   (* provider.effective_tld_plus_one(&ascii).is_ok()) *)
+       | None => false
+       end.
+  Definition not_registrable (x : bytes) : bool := negb (is_registrable x).   (* if !self.is_registrable(..) *)
 
   (** [fn assert_valid_rp_id(&self, rp_id) -> ControlFlow<Result<&str, WebauthnError>, ()>]:
       [Some res] is [Break(res)], [None] is [Continue(())] *)
